@@ -1016,8 +1016,16 @@ static int write_char(void *context, cif_value_tp *char_value, int allow_text) {
                     assert(analysis.delim[0] == UCHAR_NL);
                     /* XXX: should really flag more specifically for whether prefixing is enabled */
                     {
-                        int fold = ((analysis.length_first >= LINE_LENGTH(context))
-                                || (analysis.length_max > LINE_LENGTH(context))
+                        /*
+                         * prefixing is needed to protect embedded text delimiters, and also to allow folding
+                         * inside a run of semicolons too long to leave any other fold point
+                         */
+                        int prefix = (analysis.contains_text_delim
+                                || (analysis.max_semi_run >= (LINE_LENGTH(context) - 8 - FOLDING_WINDOW)));
+                        /* a prefixed line is longer than its content by the length of the prefix */
+                        int line_limit = LINE_LENGTH(context) - (prefix ? PREFIX_LENGTH : 0);
+                        int fold = ((analysis.length_first >= line_limit)
+                                || (analysis.length_max > line_limit)
                                 || analysis.has_reserved_start
                                 || (analysis.max_semi_run >= (LINE_LENGTH(context) - 1)));
                         /*
@@ -1031,13 +1039,7 @@ static int write_char(void *context, cif_value_tp *char_value, int allow_text) {
                             result = CIF_DISALLOWED_VALUE;
                         } else {
                             /* write as a text block, possibly with line-folding and/or prefixing  */
-                            result = write_text(context, text, analysis.length, fold,
-                                    /*
-                                     * prefixing is needed to protect embedded text delimiters, and also to allow folding
-                                     * inside a run of semicolons too long to leave any other fold point
-                                     */
-                                    (analysis.contains_text_delim || leading_semi
-                                            || (analysis.max_semi_run >= (LINE_LENGTH(context) - 8 - FOLDING_WINDOW))));
+                            result = write_text(context, text, analysis.length, fold, (prefix || leading_semi));
                         }
                     }
                     break;
